@@ -1,5 +1,6 @@
 import Req.H1.BufAlias
 import Req.Lemmas.BufLine
+import Req.Lemmas.U8
 /-!
 C04 round 5 — buffer aliasing in the header line reader.
 
@@ -368,6 +369,89 @@ theorem continued_line_alias_safe (B : Nat) (valid : Bytes → Bool) (a : ARd) :
               rw [← g1]
               simp only [hg, decide_false, Bool.false_and, Bool.false_eq_true, if_false]
               exact acontLoop_spec B _ _ a1
+
+/-! ### the fast path looks at the amount of buffered data — and it does not matter -/
+
+/-- `readContinuedLineSlice` without its `Buffered() > 1` / `Peek(2)` fast path. -/
+def readContinuedSlow (B : Nat) (valid : Bytes → Bool) (st : Rd) : ContRes × Rd :=
+  match readLineSlice (plainReadLine B) none st with
+  | ⟨.error e, st1, _⟩ => (.err e, st1)
+  | ⟨.ok l, st1, _⟩ =>
+    if l.isEmpty then (.ok [], st1)
+    else if !valid l then (.invalid, st1)
+    else contLoopV B (st1.bytes.length + 1) (trimOWS l) st1
+
+set_option maxRecDepth 100000 in
+theorem peek_first_not_blank (c : UInt8) :
+    (!(isASCIILetter c || c == 10 || c == 13) || !isSpTab c) = true :=
+  Req.U8.all (fun c => !(isASCIILetter c || c == 10 || c == 13) || !isSpTab c) (by decide) c
+
+theorem peekOK_head {p : Bytes} (h : peekOK p = true) :
+    ∃ c t, p = c :: t ∧ isSpTab c = false := by
+  match p, h with
+  | [c], h =>
+    refine ⟨c, [], rfl, ?_⟩
+    have := peek_first_not_blank c
+    simp only [peekOK, Bool.or_eq_true] at h
+    cases hs : isSpTab c <;> simp_all
+  | c :: d :: t, h =>
+    refine ⟨c, d :: t, rfl, ?_⟩
+    have := peek_first_not_blank c
+    simp only [peekOK, Bool.or_eq_true, Bool.and_eq_true] at h
+    cases hs : isSpTab c <;> simp_all
+
+/-- `skipSpace` in front of a byte that is no blank: nothing is skipped, the reader is unchanged
+(`ReadByte` + `UnreadByte`). -/
+theorem skipSpace_nonblank (B : Nat) (st : Rd) (c : UInt8) (t : Bytes) (hb : st.buf = c :: t)
+    (hc : isSpTab c = false) : skipSpace B st = ([], st) := by
+  unfold skipSpace
+  have : st.bytes.length + 1 = (st.bytes.length) + 1 := rfl
+  unfold skipSpaceLoop
+  simp only [readByte, readByteLoop, hb, hc, Bool.false_eq_true, if_false]
+  congr 1
+  cases st
+  simp_all
+
+/-- **continued_line_fastpath_irrelevant.** The only place where `readContinuedLineSlice` looks at
+HOW MUCH the connection has delivered so far (`Buffered() > 1`, i.e. where segmentation enters
+other than through `fill`) does not change its result: with and without the fast path the same
+line is returned and the same reader is left. -/
+theorem continued_line_fastpath_irrelevant (B : Nat) (valid : Bytes → Bool) (st : Rd) :
+    readContinuedV B valid st = readContinuedSlow B valid st := by
+  unfold readContinuedV readContinuedSlow
+  cases hv : readLineSlice (plainReadLine B) none st with
+  | mk res st1 dd =>
+    cases res with
+    | error e => rfl
+    | ok l =>
+      simp only
+      split
+      · rfl
+      · split
+        · rfl
+        · split
+          · next hfast =>
+            simp only [Bool.and_eq_true, decide_eq_true_eq] at hfast
+            obtain ⟨c, t, hp, hc⟩ := peekOK_head hfast.2
+            have hbuf : ∃ t', st1.buf = c :: t' := by
+              cases hb : st1.buf with
+              | nil => simp [hb] at hp
+              | cons c' t' =>
+                rw [hb] at hp
+                simp only [List.take_succ_cons] at hp
+                exact ⟨t', by rw [(List.cons.inj hp).1]⟩
+            obtain ⟨t', hb⟩ := hbuf
+            have hs := skipSpace_nonblank B st1 c t' hb hc
+            unfold contLoopV
+            simp [hs]
+          · rfl
+
+/-- The aliasing reader of the code computes the slow-path value reader. -/
+theorem continued_line_alias_safe_slow (B : Nat) (valid : Bytes → Bool) (a : ARd) :
+    (areadContinued B 1 valid a).1 = (readContinuedSlow B valid a.rd).1 ∧
+    (areadContinued B 1 valid a).2.rd = (readContinuedSlow B valid a.rd).2 := by
+  rw [← continued_line_fastpath_irrelevant]
+  exact continued_line_alias_safe B valid a
 
 /-- The header-block loop over the value-semantics reader. -/
 def headLinesV (B : Nat) (valid : Bytes → Bool) : Nat → Rd → List Bytes × ContRes × Rd
